@@ -13,6 +13,7 @@ from ..common import pmap, permuted
 from ..enum import bases as eb
 from ..enum import idents as ei
 from ..enum import mut as em
+from ..enum import shapes as esh
 from ..ref import parse as rp
 
 LEVEL = "model_checking"
@@ -21,6 +22,8 @@ RULE = ("states = distinct grammatical programs (reference recogniser accepts) c
         "construction failure or an internal SyntaxError/NameError/TypeError is a violation")  # fmt: skip
 
 NEUTRAL = "zz9"
+POISON = ['def e { return "a" weighted 1 } /* never closed', 'def e { /* never closed return "a" weighted 1 }', 'def e { return "a" weighted 1 @ }',
+          'def e { return "a" weighted }', "", 'def class { return 1 weighted 1 }', "/* only a comment */", 'def e { salt: "unterminated }']
 
 
 def rename(ast, envs, mapping):
@@ -82,6 +85,30 @@ def _work(units):
         if u[0] == "case":
             _, tag, ast, envs = u
             run_case(acc, tag, ast, envs, reserved)
+        elif u[0] == "shape":
+            _, P, lo, hi = u
+            names = [f"p{k}" for k in range(P)]
+            sk = esh._C(P)
+            for j in range(lo, hi):
+                ast = esh.prog_of(esh._number(sk[j], {"p": 0, "r": 0}))
+                progcheck.check_prog(acc, ast, [dict(e, u="id7") for e in esh.assignments(names)], "gram:shape")
+        elif u[0] == "after":
+            # a grammatical text must compile whatever was compiled before it in this process
+            _, poison = u
+            impl.build(poison)
+            n0 = len(acc.viol)
+            for tag, ast, envs in list(ei.sharing())[:6] + list(ei.nested_tuples())[:2]:
+                run_case(acc, "after:" + tag, ast, envs, reserved)
+            for v in acc.viol[n0:]:
+                v["before"] = poison
+            for name in ("basic_experiment", "salt", "comments", "full_grammar", "readme_complete"):
+                text = eb.all_bases()[name]
+                acc.add("programs")
+                b = impl.build(text)
+                acc.outcomes.add("after:" + b[0])
+                if b[0] != "ok":
+                    acc.violation({"kind": "gram:after", "sub": "build", "text": text, "before": poison, "observed": list(b),
+                                   "why": "a grammatical text failed to compile after another text had been compiled in the same process"})  # fmt: skip
         elif u[0] == "mut":
             _, name, lexs, lo, hi = u
             seen = set()
@@ -110,6 +137,10 @@ def units(tier):
         gens.append(ei.pairs(ei.POOL2[:8] + ["a"]))
     for g in gens:
         out += [("case", tag, ast, envs) for tag, ast, envs in g]
+    for P in range(0, 4 if tier == "quick" else 6):
+        n = esh.count_shapes(P)
+        out += [("shape", P, lo, min(n, lo + 16)) for lo in range(0, n, 16)]
+    out += [("after", p) for p in POISON]
     B = eb.all_bases()
     for nme in (eb.SMALL if tier == "quick" else sorted(B)):
         lexs = eb.lexemes(B[nme])
@@ -129,4 +160,8 @@ def run(res, tier):
 
 
 def replay(data):
+    if "before" in data:
+        impl.build(data["before"])
+        bad, msg = progcheck.replay_eval(data)
+        return bad, f"after compiling {data['before']!r}: {msg}"
     return progcheck.replay_eval(data)
